@@ -299,3 +299,39 @@ def py_mode(db, ctx):
                                                 "fallible exits in between: %d" % (i_set, i_guard, tries_between), fn=f)
     inp = f.info.get("inputs", [""])
     ctx.ob("tokenize|&mut self", inp and inp[0].startswith("&") and "mut" in inp[0], "PyTokenizer::tokenize receiver is `%s` (exclusive borrow through PyCell)" % (inp[0] if inp else None), fn=f)
+
+
+# user-written unsafe blocks in the Python bindings (macro-generated pyo3 glue excluded): function -> operations
+PY_UNSAFE = {
+    "PyMorpheme::morph": {"transmute", "get", "internal"},
+    "<PyWordInfo as From>::from": {"transmute"},
+}
+
+
+@rule("C19.py-unsafe", "the user-written `unsafe` blocks of the Python bindings are exactly the audited ones (a lifetime-only transmute of a "
+                       "Morpheme borrowed from a list that the returned guard keeps alive; layout-identical Vec<WordId> -> Vec<u32> transmutes)")
+def py_unsafe(db, ctx):
+    seen = {}
+    for k, f in db.fns.items():
+        if f.pkg != "sudachipy" or not f.hir:
+            continue
+        for n, ps in walk(f.hir):
+            if n.get("k") == "Block" and n.get("unsafe") and "User" in n["unsafe"] and not n.get("mac"):
+                ops = {(callee(c) or "?").split("::")[-1] for c, _ in walk(n) if is_call(c)}
+                seen.setdefault(f.short(), set()).update(ops)
+    for fn, ops in sorted(seen.items()):
+        allowed = None
+        for key, aops in PY_UNSAFE.items():
+            if fn.endswith(key):
+                allowed = aops
+        ctx.ob("%s|unsafe" % fn, allowed is not None and ops <= allowed, "%s: unsafe operations %s; audited table allows %s" % (
+            fn, sorted(ops), sorted(allowed) if allowed else "NOTHING (new unsafe block in the bindings)"))
+    ctx.floor(2)
+    # the guard returned by morph() keeps the list borrowed for as long as the transmuted Morpheme lives
+    mr = db.adt_fields("morpheme::MorphemeRef")
+    ctx.ob("MorphemeRef|keeps-list-borrowed", "PyRef" in mr["list"]["ty"] and "Morpheme" in mr["morph"]["ty"],
+           "MorphemeRef holds the PyRef guard (%s) next to the borrowed Morpheme" % mr["list"]["ty"][:60])
+    wid = db.adt("dic::word_id::WordId")[1]
+    flds = [(f["name"], f["ty"]) for v in wid["variants"] for f in v["fields"]]
+    ctx.ob("WordId|layout-u32", flds == [("raw", "u32")], "WordId is a single u32 field %s (the Vec<WordId> -> Vec<u32> transmute relies on it; repr(transparent) is "
+                                                           "checked by the compiler for the attribute itself)" % flds)
